@@ -12,6 +12,8 @@ fn n_programs(o: &Opts, quick: usize, thorough: usize) -> usize {
 pub fn plan(o: &Opts) -> Vec<GroupSpec> {
    match o.prop.as_str() {
       "C01" => plan_c01(o),
+      "C04" => plan_simple(o, "C04", 120, 1500, |r| { let l = vcore::rng::Src::chance(r, 30); gen::gen_strat(r, &GenCfg::core(), l) }),
+      "C03" => plan_simple(o, "C03", 120, 1500, |r| vcore::gen_lat::gen_lattice(r, &GenCfg::core())),
       other => panic!("no plan for property {other}"),
    }
 }
@@ -24,6 +26,20 @@ fn plan_c01(o: &Opts) -> Vec<GroupSpec> {
          let mut r = rng_for("C01", o.seed, i as u64);
          let prog = gen::gen_core(&mut r, &cfg);
          let base = format!("C01-s{}-{}", o.seed, i);
+         GroupSpec {
+            members: vec![MemberSpec { prog, opts: PrintOpts::plain(Kind::Ascent), meta: meta(&base, "ser", Kind::Ascent, true) }],
+         }
+      })
+      .collect()
+}
+
+fn plan_simple(o: &Opts, prop: &str, quick: usize, thorough: usize, f: impl Fn(&mut crate::PtRng) -> vcore::ast::Program) -> Vec<GroupSpec> {
+   let n = n_programs(o, quick, thorough);
+   (0..n)
+      .map(|i| {
+         let mut r = rng_for(prop, o.seed, i as u64);
+         let prog = f(&mut r);
+         let base = format!("{prop}-s{}-{}", o.seed, i);
          GroupSpec {
             members: vec![MemberSpec { prog, opts: PrintOpts::plain(Kind::Ascent), meta: meta(&base, "ser", Kind::Ascent, true) }],
          }
